@@ -689,8 +689,11 @@ class Aggregate:
                          "calculators were alive at once, or a file of one client was overwritten by another, or the session ran under a hash seed "
                          "different from its reference, or a line-level segment ran"),
                 "samples": self.samples,
-                "simulated_runs": done, "parts_executed": self.parts, "operations_executed": self.ops, "operation_attempts": self.attempts,
-                "runs_per_hour": round(runs_per_hour), "seeds": f"derive_seed({chk.base_seed}, j) for j < {chk.n}",
+                "simulated_runs": done, "simulated_runs_including_sweeps": done + int(self.sweep.get("variants", 0)) + int((self.sweep.get("interleavings") or {}).get("variants", 0)),
+                "parts_executed": self.parts, "operations_executed": self.ops, "operation_attempts": self.attempts,
+                "runs_per_hour": round(runs_per_hour),
+                "runs_per_hour_including_sweeps": round((done + int(self.sweep.get("variants", 0)) + int((self.sweep.get("interleavings") or {}).get("variants", 0))) / wall * 3600.0) if wall > 0 else 0,
+                "seeds": f"derive_seed({chk.base_seed}, j) for j < {chk.n}",
                 "simulated_time": ("cij reads no clock; the simulator's time is its global event sequence number (events logged: %d). The one clock-like thing a "
                                    "change to cij could read -- file timestamps -- is simulated: the sessions advanced that clock %d times, %d simulated seconds "
                                    "forward in total, and stepped it back %d times; %d stat results carried simulated timestamps")
